@@ -1,0 +1,120 @@
+//go:build verif && !sio_deadlock
+
+package sync
+
+import (
+	"runtime"
+	"sync"
+
+	"github.com/karagenc/socket.io-go/internal/vhook"
+)
+
+// Under the build tag `verif` the mutexes report every call to the verification
+// sink: "req" before a call that may block, "acq" once the lock is held, "rel"
+// before it is given up.  Everything else is the standard library.
+
+type (
+	Once      = sync.Once
+	WaitGroup = sync.WaitGroup
+	Locker    = sync.Locker
+	Map       = sync.Map
+	Cond      = sync.Cond
+	Pool      = sync.Pool
+)
+
+var OnceFunc = sync.OnceFunc
+
+type Mutex struct{ mu sync.Mutex }
+
+type RWMutex struct{ mu sync.RWMutex }
+
+func site() uintptr {
+	var pcs [1]uintptr
+	runtime.Callers(3, pcs[:])
+	return pcs[0]
+}
+
+func (m *Mutex) Lock() {
+	if vhook.LockSink() == nil {
+		m.mu.Lock()
+		return
+	}
+	pc := site()
+	vhook.Lock("req", "w", m, pc)
+	m.mu.Lock()
+	vhook.Lock("acq", "w", m, pc)
+}
+
+func (m *Mutex) TryLock() bool {
+	ok := m.mu.TryLock()
+	if ok && vhook.LockSink() != nil {
+		vhook.Lock("acq", "w", m, site())
+	}
+	return ok
+}
+
+func (m *Mutex) Unlock() {
+	if vhook.LockSink() != nil {
+		vhook.Lock("rel", "w", m, site())
+	}
+	m.mu.Unlock()
+}
+
+func (m *RWMutex) Lock() {
+	if vhook.LockSink() == nil {
+		m.mu.Lock()
+		return
+	}
+	pc := site()
+	vhook.Lock("req", "w", m, pc)
+	m.mu.Lock()
+	vhook.Lock("acq", "w", m, pc)
+}
+
+func (m *RWMutex) TryLock() bool {
+	ok := m.mu.TryLock()
+	if ok && vhook.LockSink() != nil {
+		vhook.Lock("acq", "w", m, site())
+	}
+	return ok
+}
+
+func (m *RWMutex) Unlock() {
+	if vhook.LockSink() != nil {
+		vhook.Lock("rel", "w", m, site())
+	}
+	m.mu.Unlock()
+}
+
+func (m *RWMutex) RLock() {
+	if vhook.LockSink() == nil {
+		m.mu.RLock()
+		return
+	}
+	pc := site()
+	vhook.Lock("req", "r", m, pc)
+	m.mu.RLock()
+	vhook.Lock("acq", "r", m, pc)
+}
+
+func (m *RWMutex) TryRLock() bool {
+	ok := m.mu.TryRLock()
+	if ok && vhook.LockSink() != nil {
+		vhook.Lock("acq", "r", m, site())
+	}
+	return ok
+}
+
+func (m *RWMutex) RUnlock() {
+	if vhook.LockSink() != nil {
+		vhook.Lock("rel", "r", m, site())
+	}
+	m.mu.RUnlock()
+}
+
+func (m *RWMutex) RLocker() Locker { return (*rlocker)(m) }
+
+type rlocker RWMutex
+
+func (r *rlocker) Lock()   { (*RWMutex)(r).RLock() }
+func (r *rlocker) Unlock() { (*RWMutex)(r).RUnlock() }
